@@ -16,12 +16,18 @@ use dicom_encoding::encode::Encode;
 /// Contract of `encode_element_header` (all three codecs):
 ///   Ok(n)  ==> n == hdr_len && out[..n] == hdr_bytes && nothing else written
 ///   Err    <==> explicit && short_form(vr) && len > 0xFFFF
+/// cover points that only exist for the explicit-VR codecs
+macro_rules! cover_explicit {
+    (explicit, $c:expr, $m:literal) => { kani::cover!($c, $m); };
+    (implicit, $c:expr, $m:literal) => {};
+}
+
 macro_rules! enc_header_contract {
-    ($name:ident, $enc:ty, $ts:expr) => {
+    ($name:ident, $enc:ty, $ts:expr, $kind:ident) => {
         #[kani::proof]
         #[kani::unwind(14)]
         #[kani::stub(std::backtrace::Backtrace::force_capture, no_bt)]
-        fn $name() {
+        pub fn $name() {
             let (vr, code, short) = any_vr();
             let g: u16 = kani::any();
             let e: u16 = kani::any();
@@ -52,20 +58,20 @@ macro_rules! enc_header_contract {
                         i += 1;
                     }
                     kani::cover!(sn == 8, "short form reachable");
-                    kani::cover!(sn == 12, "long form reachable");
+                    cover_explicit!($kind, sn == 12, "long form reachable");
                 }
                 Err(err) => {
                     core::mem::forget(err);
                     assert!(spec.is_none(), "C03.enc: a header that fits its length field must be encodable");
-                    kani::cover!(true, "rejection reachable");
+                    cover_explicit!($kind, true, "rejection reachable");
                 }
             }
         }
     };
 }
-enc_header_contract!(c03_enc_header_explicit_le, ExplicitVRLittleEndianEncoder, Ts::ExplicitLe);
-enc_header_contract!(c03_enc_header_explicit_be, ExplicitVRBigEndianEncoder, Ts::ExplicitBe);
-enc_header_contract!(c03_enc_header_implicit_le, ImplicitVRLittleEndianEncoder, Ts::ImplicitLe);
+enc_header_contract!(c03_enc_header_explicit_le, ExplicitVRLittleEndianEncoder, Ts::ExplicitLe, explicit);
+enc_header_contract!(c03_enc_header_explicit_be, ExplicitVRBigEndianEncoder, Ts::ExplicitBe, explicit);
+enc_header_contract!(c03_enc_header_implicit_le, ImplicitVRLittleEndianEncoder, Ts::ImplicitLe, implicit);
 
 /// Contract of `encode_item_header`, `encode_item_delimiter`, `encode_sequence_delimiter`.
 macro_rules! enc_item_contract {
@@ -73,7 +79,7 @@ macro_rules! enc_item_contract {
         #[kani::proof]
         #[kani::unwind(14)]
         #[kani::stub(std::backtrace::Backtrace::force_capture, no_bt)]
-        fn $name() {
+        pub fn $name() {
             let len: u32 = kani::any();
             let which: u8 = kani::any();
             kani::assume(which < 3);
@@ -122,3 +128,220 @@ macro_rules! enc_item_contract {
 enc_item_contract!(c03_enc_item_explicit_le, ExplicitVRLittleEndianEncoder, Ts::ExplicitLe);
 enc_item_contract!(c03_enc_item_explicit_be, ExplicitVRBigEndianEncoder, Ts::ExplicitBe);
 enc_item_contract!(c03_enc_item_implicit_le, ImplicitVRLittleEndianEncoder, Ts::ImplicitLe);
+
+// ---------------------------------------------------------------- decoders
+
+/// Contract of `decode_header` (explicit codecs) on any 12 bytes:
+///   Ok((h, n)); h.tag/vr/len and n are what the layout prescribes; the source is
+///   advanced by exactly n; an undefined VR code is not recognised as a defined VR.
+macro_rules! dec_header_contract {
+    ($name:ident, $dec:ty, $ts:expr) => {
+        #[kani::proof]
+        #[kani::unwind(4)]
+        #[kani::stub(std::backtrace::Backtrace::force_capture, no_bt)]
+        pub fn $name() {
+            let src: [u8; 12] = kani::any();
+            let mut s = &src[..];
+            let r = <$dec>::default().decode_header(&mut s);
+            let (g, e, vr, len, n) = spec_decode_explicit($ts, &src);
+            match r {
+                Ok((h, bytes_read)) => {
+                    assert!(h.tag == Tag(g, e), "C03.dec: tag read per layout");
+                    assert!(bytes_read == n, "C03.dec: reported header size equals the layout size");
+                    assert!(12 - s.len() == bytes_read, "C03.dec: source advanced by exactly bytes_read");
+                    assert!(h.len.0 == len, "C03.dec: length field read from the position/width the layout prescribes");
+                    match vr {
+                        Some(v) => assert!(h.vr == v, "C03.dec: VR is the one spelled by the two-letter code"),
+                        None => assert!(h.vr == VR::UN, "C03.dec: an undefined VR code is not recognised as a defined VR"),
+                    }
+                    kani::cover!(n == 8 && g != 0xFFFE, "short form reachable");
+                    kani::cover!(n == 12 && vr.is_some(), "long form reachable");
+                    kani::cover!(vr.is_none(), "undefined code reachable");
+                    kani::cover!(g == 0xFFFE, "delimiter reachable");
+                }
+                Err(err) => {
+                    core::mem::forget(err);
+                    assert!(false, "C03.dec: 12 bytes always hold a complete header");
+                }
+            }
+        }
+    };
+}
+dec_header_contract!(c03_dec_header_explicit_le, ExplicitVRLittleEndianDecoder, Ts::ExplicitLe);
+dec_header_contract!(c03_dec_header_explicit_be, ExplicitVRBigEndianDecoder, Ts::ExplicitBe);
+
+use dicom_core::dictionary::VirtualVr;
+use dicom_encoding::decode::implicit_le::ImplicitVRLittleEndianDecoder;
+
+/// Contract of the implicit decoder with the dictionary abstracted by its contract.
+#[kani::proof]
+#[kani::unwind(4)]
+#[kani::stub(std::backtrace::Backtrace::force_capture, no_bt)]
+pub fn c03_dec_header_implicit_le() {
+    let src: [u8; 8] = kani::any();
+    let g = get16(Ts::ImplicitLe, &src[0..2]);
+    let e = get16(Ts::ImplicitLe, &src[2..4]);
+    let (dict, answer) = SymDict::any_for(Tag(g, e));
+    let dec = ImplicitVRLittleEndianDecoder::with_dict(dict);
+    let mut s = &src[..];
+    match dec.decode_header(&mut s) {
+        Ok((h, bytes_read)) => {
+            assert!(h.tag == Tag(g, e), "C03.dec: tag read per layout");
+            assert!(bytes_read == 8 && s.len() == 0, "C03.dec: implicit header is tag + 32-bit length = 8 bytes");
+            assert!(h.len.0 == get32(Ts::ImplicitLe, &src[4..8]), "C03.dec: 32-bit little-endian length");
+            // PS3.5 A.1: OW for Pixel Data (7FE0,0010) and Overlay Data (60xx,3000); else the dictionary's VR; else UN
+            let expect = if (g == 0x7FE0 && e == 0x0010) || (g >> 8 == 0x60 && e == 0x3000) {
+                VR::OW
+            } else {
+                match answer {
+                    Some(v) => spec_relaxed(v),
+                    None => VR::UN,
+                }
+            };
+            assert!(h.vr == expect, "C03.dec: implicit VR comes from the dictionary (OW for pixel/overlay data, UN if unknown)");
+            kani::cover!(answer.is_none(), "unknown attribute reachable");
+            kani::cover!(g == 0x7FE0 && e == 0x0010, "pixel data reachable");
+        }
+        Err(err) => {
+            core::mem::forget(err);
+            assert!(false, "C03.dec: 8 bytes always hold a complete implicit header");
+        }
+    }
+}
+
+/// `decode_item_header` on any 8 bytes: Ok <=> tag is FFFE,E000/E00D/E0DD (delimiters
+/// with zero length), and the length is the 32-bit field.
+macro_rules! dec_item_contract {
+    ($name:ident, $dec:expr, $ts:expr) => {
+        #[kani::proof]
+        #[kani::unwind(4)]
+        #[kani::stub(std::backtrace::Backtrace::force_capture, no_bt)]
+        pub fn $name() {
+            let src: [u8; 8] = kani::any();
+            let g = get16($ts, &src[0..2]);
+            let e = get16($ts, &src[2..4]);
+            let len = get32($ts, &src[4..8]);
+            let mut s = &src[..];
+            let dec = $dec;
+            match dec.decode_item_header(&mut s) {
+                Ok(h) => {
+                    assert!(s.len() == 0, "C03.item: item header consumes 8 bytes");
+                    assert!(g == 0xFFFE, "C03.item: only group FFFE is an item header");
+                    match h {
+                        SequenceItemHeader::Item { len: l } => {
+                            assert!(e == 0xE000 && l.0 == len, "C03.item: item = FFFE,E000 + 32-bit length");
+                            kani::cover!(true, "item reachable");
+                        }
+                        SequenceItemHeader::ItemDelimiter => {
+                            assert!(e == 0xE00D, "C03.item: item delimiter = FFFE,E00D");
+                            kani::cover!(true, "item delimiter reachable");
+                        }
+                        SequenceItemHeader::SequenceDelimiter => {
+                            assert!(e == 0xE0DD, "C03.item: sequence delimiter = FFFE,E0DD");
+                            kani::cover!(true, "sequence delimiter reachable");
+                        }
+                    }
+                }
+                Err(err) => {
+                    core::mem::forget(err);
+                    // rejected only when it is not a well-formed item/delimiter header
+                    assert!(
+                        !(g == 0xFFFE && (e == 0xE000 || ((e == 0xE00D || e == 0xE0DD) && len == 0))),
+                        "C03.item: a well-formed item/delimiter header is accepted"
+                    );
+                    kani::cover!(true, "rejection reachable");
+                }
+            }
+        }
+    };
+}
+dec_item_contract!(c03_dec_item_explicit_le, ExplicitVRLittleEndianDecoder::default(), Ts::ExplicitLe);
+dec_item_contract!(c03_dec_item_explicit_be, ExplicitVRBigEndianDecoder::default(), Ts::ExplicitBe);
+dec_item_contract!(
+    c03_dec_item_implicit_le,
+    ImplicitVRLittleEndianDecoder::with_dict(SymDict { entry: None }),
+    Ts::ImplicitLe
+);
+dec_item_contract!(
+    c03_dec_item_adaptive_le,
+    dicom_encoding::decode::adaptive_le::AdaptiveVRLittleEndianDecoder::with_dict(SymDict { entry: None }),
+    Ts::ExplicitLe
+);
+
+/// Round trip: whenever encoding succeeds (and the tag is not in group FFFE),
+/// decoding the bytes returns the same tag, VR and length and the same size.
+macro_rules! header_roundtrip {
+    ($name:ident, $enc:ty, $dec:ty) => {
+        #[kani::proof]
+        #[kani::unwind(4)]
+        #[kani::stub(std::backtrace::Backtrace::force_capture, no_bt)]
+        pub fn $name() {
+            let (vr, _code, _short) = any_vr();
+            let g: u16 = kani::any();
+            let e: u16 = kani::any();
+            kani::assume(g != 0xFFFE);
+            let len: u32 = kani::any();
+            let de = DataElementHeader::new(Tag(g, e), vr, Length(len));
+            let mut out = [0u8; 12];
+            let r = {
+                let mut w = &mut out[..];
+                <$enc>::default().encode_element_header(&mut w, de)
+            };
+            match r {
+                Ok(n) => {
+                    let mut s = &out[..];
+                    match <$dec>::default().decode_header(&mut s) {
+                        Ok((h, m)) => {
+                            assert!(h.tag == Tag(g, e) && h.vr == vr && h.len.0 == len,
+                                "C03.rt: decoding an encoded header returns the same tag, VR and length");
+                            assert!(m == n && 12 - s.len() == n, "C03.rt: and reports exactly the bytes the layout occupies");
+                            kani::cover!(true, "round trip reachable");
+                        }
+                        Err(err) => {
+                            core::mem::forget(err);
+                            assert!(false, "C03.rt: an encoded header decodes");
+                        }
+                    }
+                }
+                Err(err) => core::mem::forget(err),
+            }
+        }
+    };
+}
+header_roundtrip!(c03_roundtrip_explicit_le, ExplicitVRLittleEndianEncoder, ExplicitVRLittleEndianDecoder);
+header_roundtrip!(c03_roundtrip_explicit_be, ExplicitVRBigEndianEncoder, ExplicitVRBigEndianDecoder);
+
+/// A two-letter code is recognised iff it is one of the 34 defined codes, and then
+/// `to_bytes` gives the code back; `from_str(to_string(v)) == v`.
+#[kani::proof]
+#[kani::unwind(4)]
+pub fn c03_vr_codes() {
+    let a: u8 = kani::any();
+    let b: u8 = kani::any();
+    let spec = spec_vr_of_code([a, b]);
+    match VR::from_binary([a, b]) {
+        Some(v) => {
+            assert!(spec.is_some(), "C03.vr: only defined codes are recognised");
+            assert!(spec.unwrap().0 == v, "C03.vr: the code maps to its VR");
+            assert!(v.to_bytes() == [a, b], "C03.vr: to_bytes returns the code");
+            kani::cover!(true, "defined code reachable");
+        }
+        None => {
+            assert!(spec.is_none(), "C03.vr: every defined code is recognised");
+            kani::cover!(true, "undefined code reachable");
+        }
+    }
+}
+
+#[kani::proof]
+#[kani::unwind(4)]
+pub fn c03_vr_to_from_string() {
+    let (vr, code, _) = any_vr();
+    assert!(vr.to_bytes() == code, "C03.vr: every VR prints its PS3.5 code");
+    let s = vr.to_string();
+    assert!(s.len() == 2, "C03.vr: two letters");
+    match s.parse::<VR>() {
+        Ok(v) => assert!(v == vr, "C03.vr: from_str(to_string(v)) == v"),
+        Err(_) => assert!(false, "C03.vr: printed code parses"),
+    }
+}
